@@ -146,7 +146,7 @@ func (se *subscriptionEntry) Close() {
 	defer func() {
 		recover()
 	}()
-	simhook.Yield("sub.close.send")
+	simhook.YieldOn("sub.close.send", se.respCh)
 	se.closeCh <- struct{}{}
 }
 
@@ -154,7 +154,7 @@ func (se *subscriptionEntry) Listen(conn net.Conn) {
 	simhook.Start(se.listenTok)
 	defer simhook.Exit()
 	defer func() {
-		simhook.Yield("sub.listen.defer")
+		simhook.YieldOn("sub.listen.defer", se.respCh)
 		se.queryerCloseCh <- struct{}{}
 		simhook.Yield("sub.listen.queryer-closed")
 		se.Lock()
@@ -166,6 +166,7 @@ func (se *subscriptionEntry) Listen(conn net.Conn) {
 	}()
 
 	for {
+		simhook.YieldOn("sub.listen.select", se.respCh)
 		select {
 		case resp := <-se.respCh:
 			if resp == nil {
